@@ -261,6 +261,13 @@ func ExecCPlanFor(prop string) func(p *CPlan, trace bool) *core.Result {
 		concProp = prop
 		res := ExecCPlan(p, trace)
 		if prop == "C11" {
+			var keep []core.Violation
+			for _, v := range res.Violations {
+				if v.Kind != "close-order" { // C11 does not speak about order
+					keep = append(keep, v)
+				}
+			}
+			res.Violations = keep
 			return res
 		}
 		var keep []core.Violation
@@ -269,6 +276,12 @@ func ExecCPlanFor(prop string) func(p *CPlan, trace bool) *core.Result {
 			case "message-not-delivered", "duplicate-delivery", "unknown-message":
 				v.Property = prop
 				keep = append(keep, v)
+			case "close-order":
+				// "Close delivers every buffered event once, in order" is C19's
+				if prop == "C19" {
+					v.Property = prop
+					keep = append(keep, v)
+				}
 			}
 		}
 		res.Violations = keep
@@ -561,6 +574,47 @@ func judgeC11(p *CPlan, evs []core.Ev, res *core.Result, sc *core.Sched) {
 			if e.K == evGroup && i > okCloseRet {
 				res.Probes[cprDetachedDelivery]++
 				break
+			}
+		}
+	}
+	// order of the winning Close's own flush: the groups it delivers itself
+	// (recorded by the closing task between the call and the return of that
+	// Close, outside any nested re-entrant call) must ascend
+	if closeOK == 1 {
+		var closer int16 = -1
+		depth := 0
+		var last int64 = -1
+		for i, e := range evs {
+			if i == okClose {
+				closer = e.Task
+				depth = 0
+				continue
+			}
+			if closer < 0 || e.Task != closer {
+				continue
+			}
+			if i >= okCloseRet {
+				break
+			}
+			switch e.K {
+			case evCall:
+				depth++
+			case evRet:
+				depth--
+			case evMsg:
+				if depth != 0 {
+					continue
+				}
+				off := int64(uint32(e.C) - p.Base)
+				if off > spanMax {
+					continue
+				}
+				if off < last {
+					res.Add("C11", "close-order", "Close", fmt.Sprintf("Close delivered sequence offset %d after offset %d", off, last))
+				}
+				if off > last {
+					last = off
+				}
 			}
 		}
 	}
